@@ -414,6 +414,52 @@ def r3b_zeroed_extensions(ctx, P):
         ctx.floor(R, "zeroing sites of the bytemuck/zerocopy extensions", n, 6)
 
 
+def r9_chunk_read_after_callback(ctx, P, R="C02.R9"):
+    from . import flow
+    ctx.rule(R, "a user callback can make another chunk current: a position write that follows a callback uses a chunk handle read from the "
+                "arena after the callback, and alloc_try_with's `nothing was allocated meanwhile` test compares against the position of the "
+                "chunk that is current after the callback (a handle hoisted above the callback sees the old chunk's unchanged position, "
+                "and the Err path then frees what the callback allocated in the next chunk while the error value still points there)")
+    def is_cb(t):
+        f = t["f"]
+        return f.get("path") in ("polyfill::non_null::write_with", "core::ops::FnOnce::call_once", "core::ops::FnMut::call_mut")
+    def is_chunk_get(t):
+        return t["f"].get("path") == "core::cell::Cell::<T>::get"
+    n_w = 0
+    for b in P.fn_bodies():
+        cbs = [s for s, t in b.calls() if is_cb(t)]
+        if not cbs:
+            continue
+        for s, t in b.calls():
+            if t["f"].get("name") in ("set_pos", "set_pos_addr") and t["f"].get("local") and any(b.dominates(c, s) or b.can_reach(c, s) for c in cbs):
+                l = flow.op_local(t["args"][0])
+                gets = [gs for gs, gt in flow.feeders(b, l)[0] if is_chunk_get(gt)] if l is not None else []
+                stale = [g for g in gets if not any(b.dominates(c, g) for c in cbs)]
+                n_w += 1
+                ctx.inst(R, b.path, not stale, "the chunk handle is read after the callback" if not stale else
+                         "the position is written through a chunk handle read before the user callback ran; the callback may have made "
+                         "another chunk current", where=b.where(s), site=f"{t['f']['name']} after callback")
+    ctx.floor(R, "position writes after a user callback", n_w, 1)
+    bs = [b for b in P.fn_bodies() if b.item["name"] == "generic_alloc_try_with" and b.path.startswith("bump_scope::BumpScope")]
+    if not ctx.need(len(bs) == 1, R, "BumpScope::generic_alloc_try_with"):
+        return
+    b = bs[0]
+    cbs = [s for s, t in b.calls() if is_cb(t)]
+    eqs = [(s, t) for s, t in b.calls() if t["f"].get("path") == "core::cmp::PartialEq::eq" and any(b.dominates(c, s) for c in cbs)]
+    if ctx.need(len(eqs) == 1, R, "the unchanged-position comparison after the callback in generic_alloc_try_with"):
+        s, t = eqs[0]
+        cbs = [c for c in cbs if b.dominates(c, s)]
+        sides = []
+        for a in t["args"]:
+            l = flow.op_local(a)
+            gets = [gs for gs, gt in flow.feeders(b, l)[0] if is_chunk_get(gt)] if l is not None else []
+            sides.append(bool(gets) and all(any(b.dominates(c, g) for c in cbs) for g in gets))
+        ok = any(sides)
+        ctx.inst(R, b.path, ok, "one side of the comparison is the position of the chunk read after the callback" if ok else
+                 "neither side of the comparison reads the current chunk after the callback: an allocation the callback made in another chunk "
+                 "goes unnoticed", where=b.where(s), site="can_shrink compares with the post-callback chunk")
+
+
 def run(ctx, progs):
     ctx.assume("rustc nightly's type checker, MIR construction and trait resolution are correct")
     ctx.assume("the fact exporter (driver/src/main.rs) and the PROV reconstruction faithfully render MIR")
@@ -433,4 +479,5 @@ def run(ctx, progs):
         _c10.r1d_aligner_direction(ctx, P, PosDiscipline(P), R="C02.R7")
         from . import c13 as _c13
         _c13.r1_settings_gates(ctx, P, PosDiscipline(P), R="C02.R8")
+        r9_chunk_read_after_callback(ctx, P)
     ctx.config = None
